@@ -918,10 +918,28 @@ fn handle_conn(sh: Arc<NodeShared>, mut s: TcpStream, id: u64) {
                         f[8..10].copy_from_slice(&0x1508u16.to_le_bytes()); // the magic, everything else sound
                         s.write_all(&f)
                     }
-                    _ => {
+                    2 => {
                         let mut f = reply_frame(&req, 0, 2, b"{}");
                         f[0..8].copy_from_slice(&47u64.to_le_bytes()); // length below the header size
                         s.write_all(&f)
+                    }
+                    // (3–5 are only used by the `ux` rounds: replies another property is about)
+                    3 => {
+                        let mut f = reply_frame(&req, 0, 2, reply_payload(sh.id, log_index).as_bytes());
+                        f[16..24].copy_from_slice(&(req.h.id ^ 0x5555).to_le_bytes()); // another request's id
+                        s.write_all(&f)
+                    }
+                    4 => {
+                        let mut f = reply_frame(&req, 0, 2, reply_payload(sh.id, log_index).as_bytes());
+                        f[11] = 1; // the notify flag
+                        s.write_all(&f)
+                    }
+                    _ => {
+                        let mut f = reply_frame(&req, 0, 2, b"{}");
+                        let q = req.query.len() as u64;
+                        f[0..8].copy_from_slice(&(1u64 << 40).to_le_bytes());
+                        f[32..40].copy_from_slice(&((1u64 << 40) - 48 - q).to_le_bytes()); // body_length to match
+                        s.write_all(&f[..48 + q as usize])
                     }
                 };
             }
@@ -2980,6 +2998,97 @@ fn run_cx(env: &Env, idx: &str, max: usize, rounds: usize, pv: &Pv) -> CaseOut {
     out
 }
 
+/// `ux`: replies whose handling belongs to other properties — a response carrying another request's id,
+/// a "response" with the notify flag set, a header that announces a frame of 2^40 bytes — in rounds on
+/// one fleet. What the clients make of them (an error of which class, a timeout, a dead connection) is
+/// not this property's business and is not predicted; this property's clauses are: the call returns, at
+/// most `max_attempts` requests reach the node, and once the node answers properly again a call
+/// succeeds (within two calls) with its own reply.
+fn run_ux(env: &Env, idx: &str, kind: &str, max: usize, rounds: usize, pv: &Pv) -> CaseOut {
+    let mut out = CaseOut::default();
+    let k = kind_name(kind);
+    let rig = match build_rig(env, idx, kind, max, &[], pv) {
+        Ok(r) => r,
+        Err(e) => {
+            out.skip = Some(e);
+            return out;
+        }
+    };
+    let (node, fleet) = (&rig.node, &rig.fleet);
+    for round in 0..rounds {
+        let odd = 3 + (round % 3) as u64;
+        node.sh.malformed_kind.store(odd, Ordering::SeqCst);
+        node.reload(vec![Beh::Malformed; max.min(4)]);
+        let variant = ["json", "msg", "jsonnp"][round % 3];
+        let a = match one_call(env, fleet, node, variant) {
+            Ok(c) => c,
+            Err(e) => {
+                out.skip = Some(e);
+                return out;
+            }
+        };
+        let what = ["a response with another request's id", "a response with the notify flag set", "a header announcing 2^40 bytes"][round % 3];
+        if a.contacts.len() > max {
+            out.fails.push((format!("fleet.{k}.attempts.exceeds_max"), format!("round {round}: the node answered with {what}; {} requests reached it, max_attempts {max}", a.contacts.len())));
+            break;
+        }
+        out.counters.push(format!("ux.{k}.kind{odd}.{}", a.res));
+        node.reload(vec![]);
+        let mut calls = vec![];
+        let mut recovered = false;
+        for _ in 0..2 {
+            match one_call(env, fleet, node, variant) {
+                Ok(c) => {
+                    let ok = c.res == "ok";
+                    calls.push(c);
+                    if ok {
+                        recovered = true;
+                        break;
+                    }
+                }
+                Err(e) => {
+                    out.skip = Some(e);
+                    return out;
+                }
+            }
+        }
+        let ctx = format!(
+            "round {round} of {rounds}: the node answered with {what} (the fleet reported {} after {} request(s)); then it answers properly: calls {} (contacts:result:is_connected), max_attempts {max}",
+            a.res,
+            a.contacts.len(),
+            calls.iter().map(show_call).collect::<Vec<_>>().join(" ")
+        );
+        for (i, c) in calls.iter().enumerate() {
+            match check_call(kind, max, c, &format!("round {round}, call {}", i + 1), false) {
+                Verdict::Fine => {}
+                Verdict::Skip(r) => {
+                    out.skip = Some(r);
+                    return out;
+                }
+                Verdict::Fail(sig, d) => {
+                    out.fails.push((sig, format!("{d}; {ctx}")));
+                    break;
+                }
+            }
+        }
+        if out.fails.is_empty() && !recovered {
+            if calls.iter().any(|c| c.res == "Io(TimedOut)" && c.contacts.iter().any(|x| x.beh == Beh::Success)) {
+                out.skip = Some("late_reply".into());
+                return out;
+            }
+            out.fails.push((format!("fleet.{k}.recover.after_foreign_reply"), ctx));
+        }
+        if !out.fails.is_empty() {
+            break;
+        }
+    }
+    out.obs = Some(if out.fails.is_empty() { format!("{idx} rounds ok") } else { format!("{idx} deviates") });
+    out.nontrivial = true;
+    out.counters.push(format!("ux.{k}.max{max}"));
+    pv_counters(pv, &mut out.counters);
+    out
+}
+
 // ------------------------------------------------------------------------------------------
 // what the constructors refuse
 // ------------------------------------------------------------------------------------------
@@ -3102,6 +3211,13 @@ fn exec_case(env: &Env, line: &str) -> CaseOut {
                 return bad();
             }
             run_obs(env, idx, kind, variant, max, o, r, pv)
+        }
+        ["ux", idx, kind, max, rounds] if ["b", "a"].contains(kind) => {
+            let (Ok(max), Ok(r)) = (max.parse::<usize>(), rounds.parse::<usize>()) else { return bad() };
+            if max == 0 || max > 1000 || r == 0 || r > 100_000 {
+                return bad();
+            }
+            run_ux(env, idx, kind, max, r, pv)
         }
         ["cx", idx, "a", max, rounds] => {
             let (Ok(max), Ok(r)) = (max.parse::<usize>(), rounds.parse::<usize>()) else { return bad() };
@@ -3354,6 +3470,14 @@ fn gen_cases(rng: &mut Rng, thorough: bool) -> Vec<String> {
                 }
             }
         }
+    }
+    // (u) replies that are other properties' business (foreign id, notify flag, an absurd length): the
+    // clauses of this one still hold around them
+    for (i, (kind, max)) in [("b", 1usize), ("a", 1), ("b", 2), ("a", 3)].iter().enumerate() {
+        let mut pv = Pv::random(rng);
+        (pv.ob, pv.op, pv.ls, pv.st, pv.mf) = (0, 0, 0, 0, 0);
+        pv.dl = [0, 2][i % 2];
+        ops.push(format!("ux u{i} {kind} {max} {} {}", if thorough { 30 } else { 9 }, pv.show()));
     }
     // (m) an async operation dropped mid-way, in rounds; then the node answers
     for (i, max) in [1usize, 2, 3].iter().enumerate() {
